@@ -389,7 +389,17 @@ def run_impl(script, payload, timeout=3600, env=None):
                        timeout=timeout, env=impl_env(env), cwd='/')
     if r.returncode != 0:
         raise HarnessError('implementation adapter %s failed: %s' % (script, r.stderr[-3000:]))
-    return json.loads(r.stdout)
+    try:
+        return json.loads(r.stdout)
+    except ValueError:
+        # the code under test printed to stdout: the adapter's answer is the last JSON line
+        for line in reversed(r.stdout.split('\n')):
+            if line.startswith('{'):
+                try:
+                    return json.loads(line)
+                except ValueError:
+                    pass
+        raise HarnessError('implementation adapter %s produced no JSON answer: %s' % (script, r.stdout[-500:]))
 
 
 def main(prop, run):
